@@ -315,6 +315,6 @@ func init() {
 		Real:        []string{"smtp.Server.Serve/handleConn/Close", "smtp.Conn command loop, Close, reset, handleStartTLS, panic recovery", "BDAT delivery goroutine", "crypto/tls (kind 7)", "net/textproto", "bufio"},
 		Stub:        []string{"net.Listener (SimListener)", "net.Conn (SimConn) with cut/RST/half-close/stall", "Backend/Session (SimBackend, panics and parks from the plan)", "clock (synctest)", "SMTP client (raw driver)"},
 		Assumptions: []string{"commands fully received before a peer disconnect may legitimately run; a final line cut before its CRLF is not judged", "callback order is the order in which callbacks began (global sequence number taken on entry)"},
-		QuickRuns:   120, ThoroughRuns: 20000,
+		QuickRuns:   700, ThoroughRuns: 40000,
 	})
 }
